@@ -93,6 +93,8 @@ type Exec struct {
 	spins        []string
 	spCount      map[string]int
 	preempts     []Preempt
+	order        []string // executed synchronisation operations (site#occurrence) once schedule exploration was on
+	everSched    bool
 	lazyRun      int
 	vtime        int64 // virtual time for timer ordering
 	strFacts     map[*Term]*strFact
